@@ -21,7 +21,10 @@ separated by far more than the tie tolerance: heavy ties (4 levels), integer / d
 groups of identical ensembles with permuted members, shifted (perfectly / inversely ordered) ensembles, constant
 forecasts, magnitudes up to 1e17, eps in {1e-6 default, 1e-7, 1e-4}; exhaustive tie patterns over 4 values for
 (n, m) = (2, 2), (3, 1) (quick) and (3, 2) (thorough); a large ensemble (m = 7072) pair differing by one
-comparison; malformed calls (eps < 1e-20, no columns, no rows). PIT: n = 1..30, m = 1..12, observations on
+comparison; very large ensembles m = 46340, 46341, 65536 (thorough: 92683, 131072) x n = 2..3, shifted / reversed /
+random / interleaved, where any int product of the sizes would overflow; members and samples are re-ordered at
+random and in structured ways (sorted, reversed, last two swapped, smallest value last, rotations, one value
+out of place); malformed calls (eps < 1e-20, no columns, no rows). PIT: n = 1..30, m = 1..12, observations on
 the members' grid (exact ties, resolved by the jitter), cst in [0, 0.5] and above (clamped), censoring thresholds
 on and off the grid. Uniform samples: 1..300 values in (0, 1) incl. ties and values within 1e-12 of the ends,
 shuffled; rejection stream with -0.1, 1.5, 1+2^-52, -1e-300, NaN, +-inf at random positions.
@@ -185,6 +188,53 @@ def valid_ranking(obs, rk):
     return all(not (obs[i] < obs[k]) or rk[i] < rk[k] for i in range(n) for k in range(n))
 
 
+def reorder(rng, xs, how=None):
+    """a rearrangement of xs: random or structured (sorted, reversed, sorted with the last two swapped, sorted with
+    the smallest value moved to the end, a rotation of the sorted values, first n-1 sorted and one value out of place)"""
+    xs = list(xs)
+    n = len(xs)
+    how = how or rng.choice(ORDERS)
+    srt = sorted(xs)
+    if how == "shuffle":
+        rng.shuffle(xs)
+        return xs, how
+    if how == "sorted":
+        return srt, how
+    if how == "reversed":
+        return srt[::-1], how
+    if how == "swap_last":
+        if n >= 2:
+            srt[-1], srt[-2] = srt[-2], srt[-1]
+        return srt, how
+    if how == "min_last":
+        return srt[1:] + srt[:1], how
+    if how == "rotate":
+        k = rng.randrange(n) if n else 0
+        return srt[k:] + srt[:k], how
+    if how == "one_out":
+        if n >= 2:
+            v = srt.pop(rng.randrange(n))
+            srt.insert(rng.choice([0, n - 1, rng.randrange(n)]), v)
+        return srt, how
+    raise ValueError(how)
+
+
+ORDERS = ["shuffle", "sorted", "reversed", "swap_last", "min_last", "rotate", "one_out"]
+
+
+def wm_pairs_sorted(sim):
+    """same quantity as wm_pairs, from counts in the sorted second ensemble (for large ensembles)"""
+    n = sim.shape[0]
+    W = np.zeros((n, n))
+    srt = [np.sort(sim[k]) for k in range(n)]
+    for i in range(n):
+        for k in range(n):
+            left = np.searchsorted(srt[k], sim[i], side="left")
+            right = np.searchsorted(srt[k], sim[i], side="right")
+            W[i, k] = float(np.sum(left)) + 0.5 * float(np.sum(right - left))
+    return W
+
+
 def shape_tag(gen):
     """histogram key: the shape of the case (grid kinds are counted under dscore/grid=...)"""
     parts = gen.split("/")
@@ -257,8 +307,10 @@ def body(ctx):
                 # member permutation: same fmat, same ranks
                 if not exhaustive:
                     sp = sim.copy()
+                    how = rng.choice(ORDERS)
                     for i in range(n):
-                        sp[i, :] = rng.sample(list(sp[i, :]), m)
+                        sp[i, :] = reorder(rng, sp[i, :], how if rng.random() < 0.7 else None)[0]
+                    ctx.hist["ensrank/member_order=" + how] = ctx.hist.get("ensrank/member_order=" + how, 0) + 1
                     _, f2, r2 = call_ensrank(eps, sp)
                     if not (np.array_equal(f2[iu], fmat[iu]) and np.array_equal(r2, ranks)):
                         ctx.finding("ensrank/member_permutation", "fmat or ranks change when ensemble members are permuted",
@@ -333,8 +385,9 @@ def body(ctx):
                             {**jc, "map": oname, "scale": so, "D": D, "D_mapped": repr(D3)})
             ctx.count(("omap", oname), True, f"invariance/observations/{oname}")
         sp = sim.copy()
+        how = rng.choice(ORDERS)
         for i in range(n):
-            sp[i, :] = rng.sample(list(sp[i, :]), m)
+            sp[i, :] = reorder(rng, sp[i, :], how if rng.random() < 0.7 else None)[0]
         D4 = float(metrics.dscore(np.array(obs), sp, eps=eps))
         if not abs(D4 - D) <= 1e-12:
             ctx.finding("dscore/member_permutation", "D changes when ensemble members are permuted", {**jc, "D": D, "D_permuted": repr(D4)})
@@ -366,6 +419,65 @@ def body(ctx):
                      "definition": [1 + ub, 2 - ub], "F_minus_half": float(fmat[0, 1] - 0.5)})
     add(f"fpair {C.f2h(1e-6)} {C.flist(e1)} {C.flist(e2)}", "fpair", float(fmat[0, 1]), {"m": mbig, "gen": "large_ensemble"})
     ctx.count(("bigm",), True, "ensrank/m=7072")
+
+    # ---------------- very large ensembles: every product of the sizes must be formed in double precision
+    # (m*m and m*(m+1) exceed 2^31 from m = 46341, 2^32 from m = 65536)
+    for mi, mlarge in enumerate([46341, 65536, 46340] + ([92683, 131072] if ctx.thorough else [])):
+        for shape in (["shifted", "reversed", "random", "interleaved"] if mi < 2 or ctx.thorough else ["reversed"]):
+            n = rng.choice([2, 3])
+            obs = [float(v) for v in rng.sample(range(100), n)]
+            order = sorted(range(n), key=lambda i: obs[i])
+            rk = {i: r for r, i in enumerate(order)}
+            nlev = rng.choice([3, 50, 10 ** 6])
+            base = np.array([rng.randrange(nlev) for _ in range(mlarge)], dtype=float)
+            sim = np.zeros((n, mlarge))
+            for i in range(n):
+                if shape == "shifted":
+                    row = base + rk[i] * rng.choice([1, nlev])
+                elif shape == "reversed":
+                    row = base + (n - 1 - rk[i]) * rng.choice([1, nlev])
+                elif shape == "random":
+                    row = np.array([rng.randrange(nlev) for _ in range(mlarge)], dtype=float)
+                else:   # members of forecast i are the residues i mod n: interleaved, no ties across forecasts
+                    row = np.arange(mlarge, dtype=float) * n + i
+                sim[i, :] = reorder(rng, row, rng.choice(["shuffle", "sorted", "reversed"]))[0]
+            jc = {"n": n, "m": mlarge, "shape": shape, "obs": obs, "levels": nlev, "gen": "large_ensemble",
+                  "sim_head": sim[:, :6].tolist()}
+            ierr, fmat, ranks = call_ensrank(1e-6, sim)
+            W = wm_pairs_sorted(sim)
+            wr = wm_ranks(W, mlarge)
+            iu = np.triu_indices(n, 1)
+            Fdef = W / (float(mlarge) * float(mlarge))
+            if ierr != 0:
+                ctx.finding("ensrank/rejects_valid", "c_ensrank rejects a valid call", {**jc, "ierr": int(ierr)})
+                continue
+            if not np.all(np.abs(fmat[iu] - Fdef[iu]) <= 1e-13):
+                ctx.finding("ensrank/F_not_weigel_mason/large_ensemble",
+                            "fmat differs from the pairwise comparison sum_a sum_b ([b<a] + [a=b]/2)/m^2",
+                            {**jc, "F": fmat[iu].tolist(), "definition": Fdef[iu].tolist()})
+            if not np.array_equal(ranks, wr):
+                ctx.finding("ensrank/ranks_not_weigel_mason/large_ensemble",
+                            "ranks differ from 1 + sum_k u(F(i,k)) of Weigel and Mason (2011)",
+                            {**jc, "ranks": ranks.tolist(), "definition": wr.tolist()})
+            D = float(metrics.dscore(np.array(obs), sim))
+            onp = np.argsort(np.argsort(np.array(obs)))
+            rdef = pearson_exact(onp, wr)
+            if rdef is not None:
+                Ddef = (max(-1.0, min(1.0, rdef)) + 1) / 2
+                if not (D == D and 0.0 <= D <= 1.0):
+                    ctx.finding("dscore/out_of_range", "D is not in [0, 1]", {**jc, "D": repr(D)})
+                elif abs(D - Ddef) > 1e-12:
+                    ctx.finding("dscore/not_rank_correlation/large_ensemble",
+                                "D differs from (Pearson(obs ranks, Weigel-Mason forecast ranks) + 1)/2", {**jc, "D": D, "definition": Ddef})
+                half = float(mlarge) * float(mlarge) / 2.0
+                lt = np.array(obs)[:, None] < np.array(obs)[None, :]
+                if np.all(W.T[lt] > half) and abs(D - 1.0) > 1e-12:
+                    ctx.finding("dscore/perfect_not_1", "forecasts ordered as the observations but D != 1", {**jc, "D": D})
+                if np.all(W.T[lt] < half) and abs(D) > 1e-12:
+                    ctx.finding("dscore/inverse_not_0", "forecasts ordered inversely to the observations but D != 0", {**jc, "D": D})
+            if mi == 0 and shape in ("shifted", "random"):
+                add(f"fpair {C.f2h(1e-6)} {C.flist(sim[0])} {C.flist(sim[1])}", "fpair", float(fmat[0, 1]), jc)
+            ctx.count(("large", mlarge, shape, sim[:, :50].tobytes()), True, f"ensrank/m={mlarge}/{shape}")
 
     # ---------------- exhaustive tie patterns over 4 values
     ex = [(2, 2), (3, 1)] + ([(3, 2)] if ctx.thorough else [])
@@ -507,6 +619,9 @@ def body(ctx):
             rng.shuffle(x)
         else:
             x = sorted(rng.uniform(1e-6, 1 - 1e-6) for _ in range(n))
+        if rng.random() < 0.35:
+            x, okind = reorder(rng, x)
+            kind = kind + "+" + okind
         bad = None
         if rng.random() < 0.3:
             bad = rng.choice([-0.1, 1.5, 1.0 + 2.0 ** -52, -1e-300, float("nan"), float("inf"), float("-inf"), -5e-324, 2.0])
@@ -556,13 +671,23 @@ def body(ctx):
         if not (0.0 <= cvp <= 1.0):
             ctx.finding("cvm/pvalue_out_of_range", "CvM p-value outside [0, 1]", {**case, "stat": float(cv), "pvalue": float(cvp)})
         # order of the data is irrelevant
-        xsh = list(x)
-        rng.shuffle(xsh)
-        cv2, _ = metrics.cramer_von_mises_test(np.array(xsh))
-        ad2, _ = metrics.anderson_darling_test(np.array(xsh))
-        if not (C.close(float(cv2), float(cv), rel=1e-12, abs_=1e-15) and C.close(float(ad2), float(adstat), rel=1e-12, abs_=1e-12)):
-            ctx.finding("uniform/order_dependent", "CvM or AD statistic changes when the sample is shuffled",
-                        {**case, "cvm": [float(cv), float(cv2)], "ad": [float(adstat), float(ad2)]})
+        hows = ORDERS if (n <= 12 or it % 5 == 0) else rng.sample(ORDERS, 2)
+        for how in hows:
+            xsh, _ = reorder(rng, x, how)
+            ocase = {**case, "order": how, "reordered": [repr(v) for v in xsh] if n <= 40 else "see data"}
+            ctx.hist["uniform/order=" + how] = ctx.hist.get("uniform/order=" + how, 0) + 1
+            cv2, cvp2 = metrics.cramer_von_mises_test(np.array(xsh))
+            try:
+                ad2, adp2 = metrics.anderson_darling_test(np.array(xsh))
+            except ValueError as e:
+                ctx.finding("ad/rejects_valid", "Anderson-Darling test rejects data inside [0, 1]", {**ocase, "error": str(e)[:100]})
+                continue
+            if not (C.close(float(cv2), float(cv), rel=1e-12, abs_=1e-15) and C.close(float(ad2), float(adstat), rel=1e-12, abs_=1e-12)
+                    and C.close(float(adp2), float(adp), rel=1e-9, abs_=1e-10) and C.close(float(cvp2), float(cvp), rel=1e-9, abs_=1e-12)):
+                ctx.finding("uniform/order_dependent", "CvM or AD statistic (or p-value) changes when the sample is re-ordered",
+                            {**ocase, "cvm": [float(cv), float(cv2)], "ad": [float(adstat), float(ad2)]})
+            if how != "shuffle" and it % 3 == 0:
+                add(f"ad {C.flist(xsh)}", "ad", ("ok", float(ad2), float(adp2)), ocase)
 
     # ---------------- alpha: statistic from the model's PIT, p-values in range
     for it in range(ctx.scale(200, 2000)):
